@@ -113,7 +113,9 @@ def _shard_main(mod, prop, tier, seed, shard, nshards, out, only_case=None):
         try:
             mod.run_case(ctx, i, rng)
         except CaseTimeout:
-            ctx.note_inconclusive("case %d hit the %ds wall-clock watchdog" % (i, plan.get("case_timeout_s", 300)))
+            where = " <- ".join("%s:%d %s" % (os.path.basename(fr.filename), fr.lineno, fr.name)
+                                for fr in reversed(traceback.extract_tb(sys.exc_info()[2])[-4:]))
+            ctx.note_inconclusive("case %d hit the %ds wall-clock watchdog (interrupted at %s)" % (i, plan.get("case_timeout_s", 300), where))
             ctx.count("cases_timed_out")
         except Exception:
             ctx.violation("harness-exception", traceback.format_exc()[-1800:])
